@@ -38,7 +38,7 @@ def prepare(rng, name, d, nmax):
             opts['params']['shuffle_nodes'] = True
     if name == 'get_dag':
         opts['order'] = [rng.randint(-1, 3) for _ in range(nr)]
-    if name == 'GNNClassifier':
+    if name.startswith('GNNClassifier'):
         opts = cases.gnn_opts(rng, nr)
     return spec, opts, fam
 
@@ -154,7 +154,7 @@ def run(ctx, scratch):
                         opts0['seeds'] = {'all': {'dict': {'0': 0, '1': 1}}}
                     elif d['seeds'] == 'pos_init':
                         opts0['pos_init'] = [[rng.uniform(-1, 1), rng.uniform(-1, 1)] for _ in range(n0)]
-                    if name == 'GNNClassifier':
+                    if name.startswith('GNNClassifier'):
                         opts0 = cases.gnn_opts(rng, n0)
                     steps = [dict(m=spec0, opts=opts0), dict(m=spec, opts=dict(opts))]
                     if np_seeded:
@@ -194,7 +194,7 @@ def _state_probes(ctx, main, desc, nmax, quick):
     rng = ctx.rng
     for name in sorted(desc):
         d = desc[name]
-        if not _is_class(name, desc) or d['seeds'] == 'sources' or name == 'GNNClassifier':
+        if not _is_class(name, desc) or d['seeds'] == 'sources' or name.startswith('GNNClassifier'):
             continue
         kinds = [k for k in d['kinds'] if k != 'bip']
         plans = [('tiny', None, None)]
